@@ -34,6 +34,8 @@ pub struct Ledger {
     pub panicked: Vec<u32>,
     /// library drops since last reset of this counter
     pub lib_drops: u64,
+    /// cids of plain-data values (no destructor)
+    pub plain: std::collections::HashSet<u32>,
 }
 
 static LEDGER: Mutex<Option<Ledger>> = Mutex::new(None);
@@ -61,6 +63,52 @@ pub fn created(cid: u32) {
     with(|l| {
         if l.st.insert(cid, St::Held).is_some() {
             l.anomalies.push(format!("cid {} created twice", cid));
+        }
+    });
+}
+
+/// a plain-data value (no destructor) was created
+pub fn created_plain(cid: u32) {
+    if cid == 0 {
+        return;
+    }
+    created(cid);
+    with(|l| {
+        l.plain.insert(cid);
+    });
+}
+
+/// a plain-data value was handed back to the harness
+pub fn returned_plain(cid: u32) {
+    if cid == 0 {
+        return;
+    }
+    with(|l| match l.st.get(&cid).copied() {
+        Some(St::Held) => {
+            l.st.insert(cid, St::Returned);
+        }
+        Some(s) => {
+            if l.anomalies.len() < 64 {
+                l.anomalies.push(format!("cid {} handed back again (was {:?})", cid, s));
+            }
+        }
+        None => {
+            if l.anomalies.len() < 64 {
+                l.anomalies.push(format!("unknown plain value cid {} handed back", cid));
+            }
+        }
+    });
+}
+
+/// After the world is gone: a plain-data value that was never handed back has
+/// been destroyed by the library at some unobservable point.
+pub fn settle_plain() {
+    with(|l| {
+        let ids: Vec<u32> = l.plain.iter().copied().collect();
+        for c in ids {
+            if l.st.get(&c) == Some(&St::Held) {
+                l.st.insert(c, St::Destroyed);
+            }
         }
     });
 }
